@@ -426,7 +426,7 @@ func knownCorpus(emit func(l geom.Geom, p geom.Geom)) {
 	pg := geom.MultiPolygon{{
 		{{X: 12.5, Y: 7.5}, {X: 6.5, Y: 8.5}, {X: 4.5, Y: 5.5}, {X: 3.5, Y: 4.5}, {X: 9.5, Y: -0.5}, {X: 11.5, Y: 0.5}, {X: 13.5, Y: 1.5}, {X: 14.5, Y: 1.5}},
 		{{X: 9.5, Y: 4.5}, {X: 10.5, Y: 4.5}, {X: 10.5, Y: 6.5}}}}
-	for _, k := range []int{0, -28, -30} {
+	for _, k := range []int{0, -28, -30, -40} {
 		f := math.Ldexp(1, k)
 		emit(shapes.ScaleGeom(ml, f), shapes.ScaleGeom(pg, f))
 		emit(shapes.ScaleGeom(ml[1], f), shapes.ScaleGeom(pg, f))
